@@ -84,7 +84,7 @@ def main():
         return numpy.einsum('ai,jb,ijkl,kc,dl->abcd', S1, S, L, S, S1)
 
     kinds_ctx = ["ham", "sa"]
-    kinds_any = ["op", "rdm", "sop", "dme", "sa", "ham"]
+    kinds_any = ["op", "rdm", "sop", "tdsop", "dme", "sa", "ham"]
 
     for bi, beh in enumerate(behs):
         N = int(rng.randint(2, 5))
@@ -112,6 +112,8 @@ def main():
         def _apply(kind, d, S):
             if kind == "sop":
                 return tr_sop(d, S)
+            if kind == "tdsop":
+                return numpy.array([tr_sop(x, S) for x in d])
             if kind == "dme":
                 return numpy.array([tr_op(x, S) for x in d])
             return tr_op(d, S)
@@ -174,6 +176,13 @@ def main():
                         d = (rng.randn(N, N, N, N) +
                              1j * rng.randn(N, N, N, N))
                         obj = SuperOperator(data=d.copy())
+                    elif kind == "tdsop":
+                        # a superoperator with a time index (the data layout
+                        # of evolution superoperators)
+                        d = (rng.randn(3, N, N, N, N) +
+                             1j * rng.randn(3, N, N, N, N))
+                        obj = SuperOperator(dim=N)
+                        obj.data = d.copy()
                     elif kind == "dme":
                         ta = qr.TimeAxis(0.0, 3, 1.0)
                         v = rng.randn(N, N) + 1j * rng.randn(N, N)
